@@ -142,6 +142,9 @@ fn panic_msg(e: Box<dyn std::any::Any + Send>) -> String {
 }
 
 pub fn quiet_panics() {
+    if std::env::var("BWV_LOUD").is_ok() {
+        return;
+    }
     std::panic::set_hook(Box::new(|_| {}));
 }
 
